@@ -84,7 +84,8 @@ theorem store_monotone (o : HOpts) (n : Nat) (oracle : Store → List Goal → O
     of the loop, for all solved priorities `a < b` and every non-critical goal `g` of priority `a`,
     at every step the scaled value of `g` in the solution of `b` lies in the interval
     `hardStep` derived from the solution of `a` (achieved epsilon + `violation_relaxation`, goal
-    relaxation, `constraint_relaxation`; minimisation goals: achieved value).
+    relaxation, `constraint_relaxation`; steps violated beyond `violation_tolerance`: the achieved
+    function value; minimisation goals: achieved value).
     `NoFold`: equality folding (two bounds closer than `equality_threshold` replaced by their
     mean) does not trigger — with folding the statement holds for a key used by one goal per
     priority (`updateBounds_other_within_hull`) and otherwise up to `equality_threshold/2`.
@@ -97,7 +98,8 @@ theorem C02_no_degradation (o : HOpts) (n : Nat) (nomOf : String → Rat)
     (hfeas : ∀ st gs s, gs ∈ prios → oracle st gs = some s →
       SatStore nomOf s st ∧
       ∀ gj g, gs[gj]? = some g → g.critical = false → g.hasTargetBounds = true → ∀ i < n,
-        SoftOK g s gj i ∧ NoFold o g (s.eps gj i + o.violationRelaxation) i) :
+        SoftOK g s gj i ∧ (vtFires o (s.eps gj i + o.violationRelaxation) = false →
+          NoFold o g (s.eps gj i + o.violationRelaxation) i)) :
     NoDegr o n nomOf (runLoop o n oracle prios [] []).1 := by
   apply runLoop_noDegr o n nomOf oracle prios
   · intro st gs s hgs ho
@@ -106,7 +108,7 @@ theorem C02_no_degradation (o : HOpts) (n : Nat) (nomOf : String → Rat)
     intro gj g hg hcrit i hi
     exact valueIn_of_feasible o nomOf g s gj i hcrit
       (hsane gs hgs g (List.mem_of_getElem? hg) hcrit) hvr hcr
-      (fun ht => (hsoft gj g hg hcrit ht i hi).1) (fun ht => (hsoft gj g hg hcrit ht i hi).2)
+      (fun ht => (hsoft gj g hg hcrit ht i hi).1) (fun ht hvt => (hsoft gj g hg hcrit ht i hi).2 hvt)
   · exact fun gs h => h
   · intro p hp; cases hp
   · intro a b pa pb _ ha; simp at ha
@@ -118,13 +120,14 @@ theorem C02_retained_target_min (o : HOpts) (nomOf : String → Rat) (g : Goal) 
     (tm lo : Rat) (ht : g.hasTargetBounds = true) (hcrit : g.critical = false)
     (hmin : g.hasMin = true) (htm : g.mAt 0 i = XVal.e (EVal.fin tm)) (hlo : g.loAt 0 = XVal.e (EVal.fin lo))
     (hnom : g.nomAt 0 = nomOf g.fk) (hpos : 0 < nomOf g.fk)
+    (hvt : vtFires o (sa.eps gj i + o.violationRelaxation) = false)
     (hnf : NoFold o g (sa.eps gj i + o.violationRelaxation) i)
     (h : Ivl.mem (scaled nomOf sb (g.fk, i)) (hardStep o g sa gj i)) :
     tm + (sa.eps gj i + o.violationRelaxation) * (lo - tm) - g.relaxation
       - o.constraintRelaxation * nomOf g.fk ≤ sb.fval g.fk i := by
   have h1 := h.1
   unfold NoFold at hnf
-  simp only [hardStep, ht, if_true, hardTargetStep, hnf, scaled] at h1
+  simp only [hardStep, ht, hvt, if_true, Bool.false_eq_true, if_false, hardTargetStep, hnf, scaled] at h1
   have hval : targetLo g (sa.eps gj i + o.violationRelaxation) i =
       EVal.fin (((sa.eps gj i + o.violationRelaxation) * (lo - tm) + tm - g.relaxation) / nomOf g.fk) := by
     simp [targetLo, hmin, htm, finOr, hcrit, hlo, finVal, hnom]
@@ -144,13 +147,14 @@ theorem C02_retained_target_max (o : HOpts) (nomOf : String → Rat) (g : Goal) 
     (tM hi : Rat) (ht : g.hasTargetBounds = true) (hcrit : g.critical = false)
     (hmax : g.hasMax = true) (htM : g.MAt 0 i = XVal.e (EVal.fin tM)) (hhi : g.hiAt 0 = XVal.e (EVal.fin hi))
     (hnom : g.nomAt 0 = nomOf g.fk) (hpos : 0 < nomOf g.fk)
+    (hvt : vtFires o (sa.eps gj i + o.violationRelaxation) = false)
     (hnf : NoFold o g (sa.eps gj i + o.violationRelaxation) i)
     (h : Ivl.mem (scaled nomOf sb (g.fk, i)) (hardStep o g sa gj i)) :
     sb.fval g.fk i ≤ tM + (sa.eps gj i + o.violationRelaxation) * (hi - tM) + g.relaxation
       + o.constraintRelaxation * nomOf g.fk := by
   have h1 := h.2
   unfold NoFold at hnf
-  simp only [hardStep, ht, if_true, hardTargetStep, hnf, scaled] at h1
+  simp only [hardStep, ht, hvt, if_true, Bool.false_eq_true, if_false, hardTargetStep, hnf, scaled] at h1
   have hval : targetHi g (sa.eps gj i + o.violationRelaxation) i =
       EVal.fin (((sa.eps gj i + o.violationRelaxation) * (hi - tM) + tM + g.relaxation) / nomOf g.fk) := by
     simp [targetHi, hmax, htM, finOr, hcrit, hhi, finVal, hnom]
@@ -164,6 +168,30 @@ theorem C02_retained_target_max (o : HOpts) (nomOf : String → Rat) (g : Goal) 
     field_simp
   rw [h4] at h3
   linarith
+
+/-- a step violated beyond `violation_tolerance`: every later solution keeps the achieved function
+    value, `|f - f*| ≤ relaxation + constraint_relaxation·nom`. -/
+theorem C02_retained_violated_fixed (o : HOpts) (nomOf : String → Rat) (g : Goal) (sa sb : Sol) (gj i : Nat)
+    (ht : g.hasTargetBounds = true) (hnom : g.nomAt 0 = nomOf g.fk) (hpos : 0 < nomOf g.fk)
+    (hvt : vtFires o (sa.eps gj i + o.violationRelaxation) = true)
+    (h : Ivl.mem (scaled nomOf sb (g.fk, i)) (hardStep o g sa gj i)) :
+    sa.fval g.fk i - g.relaxation - o.constraintRelaxation * nomOf g.fk ≤ sb.fval g.fk i
+    ∧ sb.fval g.fk i ≤ sa.fval g.fk i + g.relaxation + o.constraintRelaxation * nomOf g.fk := by
+  simp only [hardStep, ht, hvt, if_true, fixedStep, scaled, hnom, Ivl.mem, EVal.le_fin_fin] at h
+  obtain ⟨h1, h2⟩ := h
+  have e1 : (sa.fval g.fk i - g.relaxation) / nomOf g.fk ≤ sb.fval g.fk i / nomOf g.fk + o.constraintRelaxation := by
+    linarith
+  have e2 : sb.fval g.fk i / nomOf g.fk - o.constraintRelaxation ≤ (sa.fval g.fk i + g.relaxation) / nomOf g.fk := by
+    linarith
+  have a := (div_le_iff₀ hpos).1 e1
+  have b := (le_div_iff₀ hpos).1 e2
+  have ha : (sb.fval g.fk i / nomOf g.fk + o.constraintRelaxation) * nomOf g.fk
+      = sb.fval g.fk i + o.constraintRelaxation * nomOf g.fk := by field_simp
+  have hb : (sb.fval g.fk i / nomOf g.fk - o.constraintRelaxation) * nomOf g.fk
+      = sb.fval g.fk i - o.constraintRelaxation * nomOf g.fk := by field_simp
+  rw [ha] at a
+  rw [hb] at b
+  constructor <;> linarith
 
 /-- minimisation goals: every later solution has `f ≤ f* + relaxation + constraint_relaxation·nom`,
     and `f = f*` when the value is fixed (`fix_minimized_values`, no goal relaxation). -/
@@ -296,7 +324,7 @@ example : NoDegr {} 1 (fun _ => 1) (runLoop {} 1 exOracle [[exG1], [exG2]] [] []
           norm_num
         · intro tM hi' h
           cases h
-        · exact noFold_of_one_sided _ _ _ _ rfl
+        · exact fun _ => noFold_of_one_sided _ exG1 _ _ rfl
     · split at ho
       · rename_i h
         obtain ⟨rfl, rfl⟩ := h
